@@ -3,6 +3,8 @@ Helper lemmas for C18 (generic facts about `iter`, the heap and `Cfg.get`; per-o
 -/
 import Pandora.Spec.C18
 
+set_option linter.unusedSimpArgs false
+
 namespace Pandora.Proofs.C18
 open Pandora.Model.C18 Pandora.Spec.C18
 
@@ -128,3 +130,525 @@ theorem iter_views (f : St → St × Step) (I : St → Prop)
           rw [hfr c hlt, hm]
         · intro hb; simp at hb
       · exact ih (f st).1 h1 v hv
+
+/-! ### the primitives, as equations -/
+
+/-- the config identity `Get` works on -/
+def cellOf (sh : Shape) (next : Nat) : Option Nat :=
+  if sh.cfg = .none then none else some (if sh.dflt = .shared then 0 else next)
+
+def fillEvs (sh : Shape) (w : World) (fills next : Nat) : List Ev :=
+  if w.hasFill then [Ev.fill fills (cellOf sh next) (!w.fillFault fills)] else []
+
+def dfltEvs (sh : Shape) : List Ev :=
+  if sh.cfg = .none ∨ sh.dflt = .absent then [] else [Ev.dflt]
+
+/-- content of a config right after `defaultConfigContainer.new` -/
+def baseCfg (sh : Shape) (w : World) (heap : Nat → Cfg) : Cfg :=
+  match sh.dflt with
+  | .absent | .nilPtr => []
+  | .fresh => w.dflt
+  | .shared => heap 0
+
+def getHeap (sh : Shape) (w : World) (heap : Nat → Cfg) (fills next : Nat) : Nat → Cfg :=
+  match cellOf sh next with
+  | none => heap
+  | some c => upd heap c ((if w.hasFill && !w.fillFault fills then w.user else []) ++ baseCfg sh w heap)
+
+def fillFails (w : World) (fills : Nat) : Bool := w.hasFill && w.fillFault fills
+
+theorem upd_self (h : Nat → Cfg) (c : Nat) : upd h c (h c) = h := by
+  funext i; unfold upd; split <;> simp_all
+
+@[simp] theorem upd_same (h : Nat → Cfg) (c : Nat) (v : Cfg) : upd h c v c = v := by simp [upd]
+
+theorem upd_ne (h : Nat → Cfg) {c i : Nat} (v : Cfg) (hne : i ≠ c) : upd h c v i = h i := by simp [upd, hne]
+
+@[simp] theorem upd_upd (h : Nat → Cfg) (c : Nat) (v v' : Cfg) : upd (upd h c v) c v' = upd h c v' := by
+  funext i; unfold upd; split <;> rfl
+
+theorem dcGet_proj (sh : Shape) (w : World) (st : St) :
+    (dcGet sh w st).1.log = fillEvs sh w st.fills st.next ++ dfltEvs sh ++ st.log ∧
+    (dcGet sh w st).2 = (if fillFails w st.fills then .error (.fill st.fills) else .ok (cellOf sh st.next)) ∧
+    (dcGet sh w st).1.fills = st.fills + (if w.hasFill then 1 else 0) ∧
+    (dcGet sh w st).1.ctors = st.ctors ∧ (dcGet sh w st).1.facts = st.facts ∧
+    (dcGet sh w st).1.next = (if sh.cfg = .none ∨ sh.dflt = .shared then st.next else st.next + 1) ∧
+    (dcGet sh w st).1.heap = getHeap sh w st.heap st.fills st.next := by
+  obtain ⟨factory, cfg, ctorErr, factErr, iface, dflt⟩ := sh
+  by_cases h1 : w.hasFill = true <;> by_cases h2 : w.fillFault st.fills = true <;>
+  cases cfg <;> cases dflt <;>
+  simp [dcGet, dcNew, cellOf, fillEvs, dfltEvs, fillFails, getHeap, baseCfg, upd_self, upd_same, upd_upd, h1, h2]
+
+def seenOf (kind : CfgKind) (conf : Option Nat) (copy : Cfg) (heap : Nat → Cfg) : Cfg :=
+  match kind, conf with
+  | .ptr, some c => heap c
+  | .struct, some c => heap c
+  | _, _ => copy
+
+def markHeap (kind : CfgKind) (serial : Nat) (conf : Option Nat) (heap : Nat → Cfg) : Nat → Cfg :=
+  match kind, conf with
+  | .ptr, some c => upd heap c ((markField, (serial : Int)) :: heap c)
+  | _, _ => heap
+
+theorem produce_eq (kind : CfgKind) (serial : Nat) (conf : Option Nat) (copy : Cfg) (st : St) :
+    produce kind serial conf copy st =
+      ({ st with heap := markHeap kind serial conf st.heap },
+       ⟨serial, if kind = .ptr then conf else none, seenOf kind conf copy st.heap⟩) := by
+  cases kind <;> cases conf <;> simp [produce, markHeap, seenOf]
+
+def ctorFails (sh : Shape) (w : World) (ctors : Nat) : Bool := sh.ctorErr && w.ctorFault ctors
+def factFails (sh : Shape) (w : World) (facts : Nat) : Bool := sh.factErr && w.factFault facts
+
+theorem pluginCtor_eq (sh : Shape) (w : World) (conf : Option Nat) (st : St) :
+    pluginCtor sh w conf st =
+      if ctorFails sh w st.ctors then
+        ({ st with ctors := st.ctors + 1, log := .ctor st.ctors (shownConf sh conf) false :: st.log }, .error (.ctor st.ctors))
+      else
+        ({ st with ctors := st.ctors + 1, log := .ctor st.ctors (shownConf sh conf) true :: st.log,
+                   heap := markHeap sh.cfg st.ctors conf st.heap },
+         .ok ⟨st.ctors, if sh.cfg = .ptr then conf else none, seenOf sh.cfg conf [] st.heap⟩) := by
+  unfold pluginCtor ctorFails
+  split <;> simp [produce_eq]
+
+theorem regFacCall_eq (sh : Shape) (w : World) (rf : RegFac) (st : St) :
+    regFacCall sh w rf st =
+      if factFails sh w st.facts then
+        ({ st with facts := st.facts + 1, log := .fact st.facts false :: st.log }, .error (.fact st.facts))
+      else
+        ({ st with facts := st.facts + 1, log := .fact st.facts true :: st.log,
+                   heap := markHeap sh.cfg st.facts rf.cell st.heap },
+         .ok ⟨st.facts, if sh.cfg = .ptr then rf.cell else none, seenOf sh.cfg rf.cell rf.copy st.heap⟩) := by
+  unfold regFacCall factFails
+  split <;> simp [produce_eq]
+
+/-- what the registered factory constructor captures -/
+def capture (sh : Shape) (conf : Option Nat) (heap : Nat → Cfg) : RegFac :=
+  match sh.cfg, conf with
+  | .ptr, some c => ⟨some c, []⟩
+  | .struct, some c => ⟨none, heap c⟩
+  | _, _ => ⟨none, []⟩
+
+theorem factoryCtor_eq (sh : Shape) (w : World) (conf : Option Nat) (st : St) :
+    factoryCtor sh w conf st =
+      if ctorFails sh w st.ctors then
+        ({ st with ctors := st.ctors + 1, log := .ctor st.ctors (shownConf sh conf) false :: st.log }, .error (.ctor st.ctors))
+      else
+        ({ st with ctors := st.ctors + 1, log := .ctor st.ctors (shownConf sh conf) true :: st.log },
+         .ok (capture sh conf st.heap)) := by
+  unfold factoryCtor ctorFails capture
+  split <;> rfl
+
+/-! ### one call, in explicit form -/
+
+@[simp] theorem dfltEvs_reverse (sh : Shape) : (dfltEvs sh).reverse = dfltEvs sh := by
+  unfold dfltEvs; split <;> rfl
+
+@[simp] theorem fillEvs_reverse (sh : Shape) (w : World) (a b : Nat) : (fillEvs sh w a b).reverse = fillEvs sh w a b := by
+  unfold fillEvs; split <;> rfl
+
+def conv (pan : Bool) (e : Err) : Res := if pan then .panic e else .err e
+
+def nextG (sh : Shape) (doGet : Bool) (next : Nat) : Nat :=
+  if doGet = false ∨ sh.cfg = .none ∨ sh.dflt = .shared then next else next + 1
+
+/-- explicit description of one call that (optionally) gets a config, calls the registered constructor and, for
+a factory constructor, calls the factory it returned once: final heap, final frontier, step -/
+def callSpec (sh : Shape) (w : World) (doGet viaFactory pan : Bool) (st : St) : (Nat → Cfg) × Nat × Step :=
+  let evG := if doGet then dfltEvs sh ++ fillEvs sh w st.fills st.next else []
+  let cell := if doGet then cellOf sh st.next else none
+  let heapG := if doGet then getHeap sh w st.heap st.fills st.next else st.heap
+  let nx := nextG sh doGet st.next
+  if doGet && fillFails w st.fills then (heapG, nx, ⟨evG, conv pan (.fill st.fills)⟩)
+  else if ctorFails sh w st.ctors then
+    (heapG, nx, ⟨evG ++ [.ctor st.ctors (shownConf sh cell) false], conv pan (.ctor st.ctors)⟩)
+  else if !viaFactory then
+    (markHeap sh.cfg st.ctors cell heapG, nx,
+      ⟨evG ++ [.ctor st.ctors (shownConf sh cell) true],
+       .ok ⟨st.ctors, if sh.cfg = .ptr then cell else none, seenOf sh.cfg cell [] heapG⟩⟩)
+  else
+    let rf := capture sh cell heapG
+    if factFails sh w st.facts then
+      (heapG, nx, ⟨evG ++ [.ctor st.ctors (shownConf sh cell) true, .fact st.facts false], conv pan (.fact st.facts)⟩)
+    else
+      (markHeap sh.cfg st.facts rf.cell heapG, nx,
+        ⟨evG ++ [.ctor st.ctors (shownConf sh cell) true, .fact st.facts true],
+         .ok ⟨st.facts, if sh.cfg = .ptr then rf.cell else none, seenOf sh.cfg rf.cell rf.copy heapG⟩⟩)
+
+/-- state and step of an operation, as the triple `callSpec` speaks about -/
+def tri (r : St × Step) : (Nat → Cfg) × Nat × Step := (r.1.heap, r.1.next, r.2)
+
+theorem nextG_get (sh : Shape) (next : Nat) :
+    (if sh.cfg = .none ∨ sh.dflt = .shared then next else next + 1) = nextG sh true next := by
+  simp [nextG]
+
+theorem step_regNew (sh : Shape) (w : World) (st : St) :
+    tri (step (regNew sh w) st) = callSpec sh w true sh.factory false st := by
+  obtain ⟨g1, g2, g3, g4, g5, g6, g7⟩ := dcGet_proj sh w { st with log := [] }
+  simp only [nextG_get] at g6
+  simp only [tri, step, regNew, g2, callSpec, if_true, Bool.true_and]
+  by_cases hf : fillFails w st.fills = true
+  · simp [hf, g1, g6, g7, conv]
+  · simp only [hf, newPlugin]
+    by_cases hcf : ctorFails sh w st.ctors = true <;> by_cases hfa : sh.factory = true
+    · simp [hcf, hfa, factoryCtor_eq, g1, g4, g6, g7, conv, toRes]
+    · simp [hcf, hfa, pluginCtor_eq, g1, g4, g6, g7, conv, toRes]
+    · by_cases hff : factFails sh w st.facts = true
+      · simp [hcf, hfa, hff, factoryCtor_eq, regFacCall_eq, g1, g4, g5, g6, g7, conv, toRes]
+      · simp [hcf, hfa, hff, factoryCtor_eq, regFacCall_eq, g1, g4, g5, g6, g7, conv, toRes]
+    · simp [hcf, hfa, pluginCtor_eq, g1, g4, g6, g7, conv, toRes]
+
+theorem ctorFails_err {sh : Shape} {w : World} {i : Nat} (h : ctorFails sh w i = true) : sh.ctorErr = true := by
+  simp [ctorFails] at h; exact h.1
+
+theorem factFails_err {sh : Shape} {w : World} {i : Nat} (h : factFails sh w i = true) : sh.factErr = true := by
+  simp [factFails] at h; exact h.1
+
+theorem step_wrapPlugin (sh : Shape) (w : World) (n : Nat) (hn : n = 1 ∨ n = 2) (st : St) (hc : sh.cfg ≠ .none) :
+    tri (step (callFac sh w (.wrapPlugin n)) st) = callSpec sh w true false (n == 1) st := by
+  obtain ⟨g1, g2, g3, g4, g5, g6, g7⟩ := dcGet_proj sh w { st with log := [] }
+  simp only [nextG_get] at g6
+  simp only [tri, step, callFac, hc, if_false, g2, callSpec, if_true, Bool.true_and]
+  by_cases hf : fillFails w st.fills = true
+  · rcases hn with rfl | rfl <;> simp [hf, g1, g6, g7, conv]
+  · by_cases hcf : ctorFails sh w st.ctors = true
+    · have := ctorFails_err hcf
+      rcases hn with rfl | rfl <;>
+        simp [hf, hcf, pluginCtor_eq, g1, g4, g6, g7, conv, convertOut, outLen, this]
+    · simp [hf, hcf, pluginCtor_eq, g1, g4, g6, g7, convertOut]
+
+theorem step_wrapPlugin_none (sh : Shape) (w : World) (n : Nat) (hn : n = 1 ∨ n = 2) (st : St) (hc : sh.cfg = .none) :
+    tri (step (callFac sh w (.wrapPlugin n)) st) = callSpec sh w false false (n == 1) st := by
+  simp only [tri, step, callFac, hc, if_true, callSpec]
+  by_cases hcf : ctorFails sh w st.ctors = true
+  · have := ctorFails_err hcf
+    rcases hn with rfl | rfl <;> simp [hcf, pluginCtor_eq, conv, convertOut, outLen, this, nextG]
+  · simp [hcf, pluginCtor_eq, convertOut, nextG, hc]
+
+theorem step_direct (sh : Shape) (w : World) (n : Nat) (hn : outLen sh.ctorErr = n) (st : St) :
+    tri (step (callFac sh w .direct) st) = callSpec sh w false false (n == 1) st := by
+  simp only [tri, step, callFac, callSpec]
+  by_cases hcf : ctorFails sh w st.ctors = true
+  · have := ctorFails_err hcf
+    subst hn
+    simp [hcf, pluginCtor_eq, conv, toRes, nextG, outLen, this]
+  · simp [hcf, pluginCtor_eq, toRes, nextG]
+
+/-- explicit description of one call of a factory made from a factory constructor -/
+def facSpec (sh : Shape) (w : World) (rf : RegFac) (pan : Bool) (st : St) : (Nat → Cfg) × Nat × Step :=
+  if factFails sh w st.facts then (st.heap, st.next, ⟨[.fact st.facts false], conv pan (.fact st.facts)⟩)
+  else
+    (markHeap sh.cfg st.facts rf.cell st.heap, st.next,
+      ⟨[.fact st.facts true],
+       .ok ⟨st.facts, if sh.cfg = .ptr then rf.cell else none, seenOf sh.cfg rf.cell rf.copy st.heap⟩⟩)
+
+theorem step_wrapFactory (sh : Shape) (w : World) (rf : RegFac) (n : Nat) (hn : n = 1 ∨ n = 2) (st : St) :
+    tri (step (callFac sh w (.wrapFactory rf n)) st) = facSpec sh w rf (n == 1) st := by
+  simp only [tri, step, callFac, facSpec]
+  by_cases hff : factFails sh w st.facts = true
+  · have := factFails_err hff
+    rcases hn with rfl | rfl <;> simp [hff, regFacCall_eq, conv, convertOut, outLen, this]
+  · simp [hff, regFacCall_eq, convertOut]
+
+theorem step_directFactory (sh : Shape) (w : World) (rf : RegFac) (n : Nat) (hn : outLen sh.factErr = n) (st : St) :
+    tri (step (callFac sh w (.directFactory rf)) st) = facSpec sh w rf (n == 1) st := by
+  simp only [tri, step, callFac, facSpec]
+  by_cases hff : factFails sh w st.facts = true
+  · have := factFails_err hff
+    subst hn
+    simp [hff, regFacCall_eq, conv, toRes, outLen, this]
+  · simp [hff, regFacCall_eq, toRes]
+
+/-! ### C18_errors, per step -/
+
+theorem filterMap_none {evs : List Ev} (h : ∀ e ∈ evs, evFail e = none) : evs.filterMap evFail = [] := by
+  induction evs with
+  | nil => rfl
+  | cons a l ih =>
+    have ha := h a (by simp)
+    simp only [List.filterMap_cons, ha]
+    exact ih (fun e he => h e (by simp [he]))
+
+theorem errOk_fail (pan : Bool) (evs : List Ev) (x : Ev) (err : Err)
+    (h : ∀ e ∈ evs, evFail e = none) (hx : evFail x = some err) :
+    stepErrOk pan ⟨evs ++ [x], conv pan err⟩ = true := by
+  unfold stepErrOk
+  simp only [List.filterMap_append, filterMap_none h, List.nil_append, List.filterMap_cons, hx, List.filterMap_nil]
+  cases pan <;> simp [conv, hx]
+
+theorem errOk_ok (pan : Bool) (evs : List Ev) (p : Product) (h : ∀ e ∈ evs, evFail e = none) :
+    stepErrOk pan ⟨evs, .ok p⟩ = true := by
+  unfold stepErrOk
+  simp [filterMap_none h]
+
+theorem dfltEvs_nofail (sh : Shape) : ∀ e ∈ dfltEvs sh, evFail e = none := by
+  unfold dfltEvs; split <;> simp [evFail]
+
+theorem fillEvs_nofail (sh : Shape) (w : World) (a b : Nat) (h : fillFails w a = false) :
+    ∀ e ∈ fillEvs sh w a b, evFail e = none := by
+  unfold fillEvs
+  by_cases h1 : w.hasFill = true
+  · simp [fillFails, h1] at h
+    simp [h1, evFail, h]
+  · simp [h1]
+
+theorem fillEvs_fail (sh : Shape) (w : World) (a b : Nat) (h : fillFails w a = true) :
+    fillEvs sh w a b = [Ev.fill a (cellOf sh b) false] := by
+  simp [fillFails] at h
+  simp [fillEvs, h.1, h.2]
+
+theorem callSpec_err (sh : Shape) (w : World) (doGet vf pan : Bool) (st : St) :
+    stepErrOk pan (callSpec sh w doGet vf pan st).2.2 = true ∧ isMade (callSpec sh w doGet vf pan st).2.2 = false := by
+  unfold callSpec
+  by_cases hf : (doGet && fillFails w st.fills) = true
+  · simp only [hf, if_true]
+    simp only [Bool.and_eq_true] at hf
+    simp only [hf.1, if_true, fillEvs_fail sh w _ _ hf.2]
+    exact ⟨errOk_fail pan _ _ _ (dfltEvs_nofail sh) (by simp [evFail]), by cases pan <;> simp [isMade, conv]⟩
+  · simp only [hf]
+    have hev : ∀ e ∈ (if doGet = true then dfltEvs sh ++ fillEvs sh w st.fills st.next else []), evFail e = none := by
+      cases doGet
+      · simp
+      · simp only [if_true, List.mem_append]
+        simp at hf
+        rintro e (he | he)
+        · exact dfltEvs_nofail sh e he
+        · exact fillEvs_nofail sh w _ _ hf e he
+    by_cases hcf : ctorFails sh w st.ctors = true
+    · simp only [hcf, if_true]
+      exact ⟨errOk_fail pan _ _ _ hev (by simp [evFail]), by cases pan <;> simp [isMade, conv]⟩
+    · simp only [hcf]
+      cases vf
+      · simp only [Bool.not_false, if_true]
+        refine ⟨errOk_ok pan _ _ ?_, by simp [isMade]⟩
+        intro e he
+        simp only [List.mem_append, List.mem_singleton] at he
+        rcases he with he | rfl
+        · exact hev e he
+        · simp [evFail]
+      · simp only [Bool.not_true]
+        by_cases hff : factFails sh w st.facts = true
+        · simp only [hff, if_true]
+          refine ⟨?_, by cases pan <;> simp [isMade, conv]⟩
+          have : ∀ e ∈ (if doGet = true then dfltEvs sh ++ fillEvs sh w st.fills st.next else []) ++
+              [Ev.ctor st.ctors (shownConf sh (if doGet = true then cellOf sh st.next else none)) true], evFail e = none := by
+            intro e he
+            simp only [List.mem_append, List.mem_singleton] at he
+            rcases he with he | rfl
+            · exact hev e he
+            · simp [evFail]
+          have := errOk_fail pan _ (Ev.fact st.facts false) (.fact st.facts) this (by simp [evFail])
+          simpa using this
+        · simp only [hff]
+          refine ⟨errOk_ok pan _ _ ?_, by simp [isMade]⟩
+          intro e he
+          simp only [List.mem_append, List.mem_cons, List.mem_singleton, List.not_mem_nil, or_false] at he
+          rcases he with he | rfl | rfl
+          · exact hev e he
+          · simp [evFail]
+          · simp [evFail]
+
+theorem facSpec_err (sh : Shape) (w : World) (rf : RegFac) (pan : Bool) (st : St) :
+    stepErrOk pan (facSpec sh w rf pan st).2.2 = true ∧ isMade (facSpec sh w rf pan st).2.2 = false := by
+  unfold facSpec
+  by_cases hff : factFails sh w st.facts = true
+  · simp only [hff, if_true]
+    exact ⟨errOk_fail pan [] _ _ (by simp) (by simp [evFail]), by cases pan <;> simp [isMade, conv]⟩
+  · simp only [hff]
+    exact ⟨errOk_ok pan _ _ (by simp [evFail]), by simp [isMade]⟩
+/-! ### creation of a factory, in explicit form -/
+
+def createSpec (sh : Shape) (w : World) (n : Nat) (st : St) : (Nat → Cfg) × Nat × List Ev × Except Err Fac :=
+  if !sh.factory then
+    if sh.cfg = .none then
+      (st.heap, st.next, fillEvs sh w st.fills st.next,
+        if fillFails w st.fills then .error (.fill st.fills)
+        else .ok (if sh.iface && (outLen sh.ctorErr == n) then .direct else .wrapPlugin n))
+    else (st.heap, st.next, [], .ok (.wrapPlugin n))
+  else
+    let evG := dfltEvs sh ++ fillEvs sh w st.fills st.next
+    let cell := cellOf sh st.next
+    let heapG := getHeap sh w st.heap st.fills st.next
+    let nx := nextG sh true st.next
+    if fillFails w st.fills then (heapG, nx, evG, .error (.fill st.fills))
+    else if ctorFails sh w st.ctors then
+      (heapG, nx, evG ++ [.ctor st.ctors (shownConf sh cell) false], .error (.ctor st.ctors))
+    else
+      (heapG, nx, evG ++ [.ctor st.ctors (shownConf sh cell) true],
+        .ok (if sh.iface && (outLen sh.factErr == n) then .directFactory (capture sh cell heapG)
+             else .wrapFactory (capture sh cell heapG) n))
+
+def quad (r : St × Except Err Fac) : (Nat → Cfg) × Nat × List Ev × Except Err Fac :=
+  (r.1.heap, r.1.next, r.1.log.reverse, r.2)
+
+theorem dfltEvs_none {sh : Shape} (h : sh.cfg = .none) : dfltEvs sh = [] := by simp [dfltEvs, h]
+theorem cellOf_none {sh : Shape} (h : sh.cfg = .none) (n : Nat) : cellOf sh n = none := by simp [cellOf, h]
+theorem getHeap_none {sh : Shape} (h : sh.cfg = .none) (w : World) (heap : Nat → Cfg) (a b : Nat) :
+    getHeap sh w heap a b = heap := by simp [getHeap, cellOf, h]
+
+theorem create_eq (sh : Shape) (w : World) (n : Nat) (st : St) (hl : st.log = []) :
+    quad (regNewFactory sh w n st) = createSpec sh w n st := by
+  obtain ⟨g1, g2, g3, g4, g5, g6, g7⟩ := dcGet_proj sh w st
+  simp only [nextG_get] at g6
+  rw [hl] at g1
+  by_cases hfa : sh.factory = true
+  · -- factory constructor
+    by_cases hc : sh.cfg = .none
+    · simp only [quad, regNewFactory, hc, if_true, g2, createSpec, hfa, Bool.not_true]
+      by_cases hf : fillFails w st.fills = true
+      · simp [hf, g1, g6, g7, hc]
+      · simp only [hf, ctorNewFactory, hfa, Bool.not_true]
+        by_cases hcf : ctorFails sh w st.ctors = true
+        · simp [hcf, factoryCtor_eq, g1, g4, g6, g7, hc, cellOf_none hc]
+        · by_cases hty : (sh.iface && (outLen sh.factErr == n)) = true
+          · simp [hcf, hty, factoryCtor_eq, g1, g4, g6, g7, hc, cellOf_none hc]
+          · simp [hcf, hty, factoryCtor_eq, g1, g4, g6, g7, hc, cellOf_none hc]
+    · simp only [quad, regNewFactory, hc, if_false, ctorNewFactory, hfa, Bool.not_true, if_true, g2, createSpec]
+      by_cases hf : fillFails w st.fills = true
+      · simp [hf, g1, g6, g7]
+      · by_cases hcf : ctorFails sh w st.ctors = true
+        · simp [hf, hcf, factoryCtor_eq, g1, g4, g6, g7]
+        · by_cases hty : (sh.iface && (outLen sh.factErr == n)) = true
+          · simp [hf, hcf, hty, factoryCtor_eq, g1, g4, g6, g7]
+          · simp [hf, hcf, hty, factoryCtor_eq, g1, g4, g6, g7]
+  · -- component constructor
+    by_cases hc : sh.cfg = .none
+    · simp only [quad, regNewFactory, hc, if_true, g2, createSpec, hfa]
+      by_cases hf : fillFails w st.fills = true
+      · simp [hf, g1, g6, g7, hc, dfltEvs_none hc, getHeap_none hc, nextG]
+      · by_cases hty : (sh.iface && (outLen sh.ctorErr == n)) = true
+        · simp [hf, hty, ctorNewFactory, hfa, g1, g6, g7, hc, dfltEvs_none hc, getHeap_none hc, nextG]
+        · simp [hf, hty, ctorNewFactory, hfa, g1, g6, g7, hc, dfltEvs_none hc, getHeap_none hc, nextG]
+    · simp [quad, regNewFactory, hc, ctorNewFactory, hfa, createSpec, hl]
+/-! ### what `NewFactory` can hand out -/
+
+def FacOk (sh : Shape) (n : Nat) : Fac → Prop
+  | .direct => sh.factory = false ∧ sh.cfg = .none ∧ outLen sh.ctorErr = n
+  | .wrapPlugin m => sh.factory = false ∧ m = n
+  | .directFactory _ => sh.factory = true ∧ outLen sh.factErr = n
+  | .wrapFactory _ m => sh.factory = true ∧ m = n
+
+theorem createSpec_facOk (sh : Shape) (w : World) (n : Nat) (st : St) (fac : Fac)
+    (h : (createSpec sh w n st).2.2.2 = .ok fac) : FacOk sh n fac := by
+  unfold createSpec at h
+  by_cases hfa : sh.factory = true
+  · simp only [hfa, Bool.not_true] at h
+    by_cases hf : fillFails w st.fills = true
+    · simp [hf] at h
+    · by_cases hcf : ctorFails sh w st.ctors = true
+      · simp [hf, hcf] at h
+      · by_cases hty : (sh.iface && (outLen sh.factErr == n)) = true
+        · simp [hf, hcf, hty] at h
+          subst h
+          simp at hty
+          exact ⟨hfa, hty.2⟩
+        · simp [hf, hcf, hty] at h
+          subst h
+          exact ⟨hfa, rfl⟩
+  · simp only [hfa] at h
+    simp at hfa
+    by_cases hc : sh.cfg = .none
+    · by_cases hf : fillFails w st.fills = true
+      · simp [hc, hf] at h
+      · by_cases hty : (sh.iface && (outLen sh.ctorErr == n)) = true
+        · simp [hc, hf, hty] at h
+          subst h
+          simp at hty
+          exact ⟨hfa, hc, hty.2⟩
+        · simp [hc, hf, hty] at h
+          subst h
+          exact ⟨hfa, rfl⟩
+    · simp [hc] at h
+      subst h
+      exact ⟨hfa, rfl⟩
+
+theorem tri_step {r : St × Step} {x : (Nat → Cfg) × Nat × Step} (h : tri r = x) :
+    r.1.heap = x.1 ∧ r.1.next = x.2.1 ∧ r.2 = x.2.2 := by
+  subst h; exact ⟨rfl, rfl, rfl⟩
+
+/-- every factory call is a `callSpec` or a `facSpec` -/
+theorem callFac_cases (sh : Shape) (w : World) (n : Nat) (hn : n = 1 ∨ n = 2) (fac : Fac) (hok : FacOk sh n fac) (st : St) :
+    (sh.factory = false ∧ ∃ doGet, (doGet = true ↔ sh.cfg ≠ .none) ∧
+        tri (step (callFac sh w fac) st) = callSpec sh w doGet false (n == 1) st) ∨
+    (sh.factory = true ∧ ∃ rf, (fac = .directFactory rf ∨ fac = .wrapFactory rf n) ∧
+        tri (step (callFac sh w fac) st) = facSpec sh w rf (n == 1) st) := by
+  cases fac with
+  | direct =>
+    obtain ⟨h1, h2, h3⟩ := hok
+    exact .inl ⟨h1, false, by simp [h2], step_direct sh w n h3 st⟩
+  | wrapPlugin m =>
+    obtain ⟨h1, rfl⟩ := hok
+    by_cases hc : sh.cfg = .none
+    · exact .inl ⟨h1, false, by simp [hc], step_wrapPlugin_none sh w m hn st hc⟩
+    · exact .inl ⟨h1, true, by simp [hc], step_wrapPlugin sh w m hn st hc⟩
+  | directFactory rf =>
+    obtain ⟨h1, h2⟩ := hok
+    exact .inr ⟨h1, rf, .inl rfl, step_directFactory sh w rf n h2 st⟩
+  | wrapFactory rf m =>
+    obtain ⟨h1, rfl⟩ := hok
+    exact .inr ⟨h1, rf, .inr rfl, step_wrapFactory sh w rf m hn st⟩
+
+/-! ### C18_errors assembled -/
+
+theorem errors_component (sh : Shape) (w : World) (k : Nat) (st : St) :
+    (iter (step (regNew sh w)) k st).2.length = k ∧
+    ∀ s ∈ (iter (step (regNew sh w)) k st).2, stepErrOk false s = true ∧ isMade s = false := by
+  refine ⟨iter_length _ k st, ?_⟩
+  have := iter_inv (step (regNew sh w)) (fun _ => True) (fun s => stepErrOk false s = true ∧ isMade s = false)
+    (fun st _ => ⟨trivial, by
+      rw [(tri_step (step_regNew sh w st)).2.2]
+      exact callSpec_err sh w true sh.factory false st⟩) k st trivial
+  exact this.2
+
+theorem errors_calls (sh : Shape) (w : World) (n : Nat) (hn : n = 1 ∨ n = 2) (fac : Fac) (hok : FacOk sh n fac)
+    (k : Nat) (st : St) :
+    ∀ s ∈ (iter (step (callFac sh w fac)) k st).2, stepErrOk (n == 1) s = true ∧ isMade s = false := by
+  have := iter_inv (step (callFac sh w fac)) (fun _ => True) (fun s => stepErrOk (n == 1) s = true ∧ isMade s = false)
+    (fun st _ => ⟨trivial, by
+      rcases callFac_cases sh w n hn fac hok st with ⟨_, doGet, _, h⟩ | ⟨_, rf, _, h⟩
+      · rw [(tri_step h).2.2]; exact callSpec_err sh w doGet false _ st
+      · rw [(tri_step h).2.2]; exact facSpec_err sh w rf _ st⟩) k st trivial
+  exact this.2
+
+/-- the creation step: an error is the error result (never a panic), nothing failing otherwise -/
+theorem createSpec_err (sh : Shape) (w : World) (n : Nat) (st : St) :
+    match (createSpec sh w n st).2.2.2 with
+    | .error e => stepErrOk false ⟨(createSpec sh w n st).2.2.1, .err e⟩ = true
+    | .ok _ => stepErrOk false ⟨(createSpec sh w n st).2.2.1, .made⟩ = true := by
+  have hmade : ∀ evs : List Ev, (∀ e ∈ evs, evFail e = none) → stepErrOk false ⟨evs, .made⟩ = true := by
+    intro evs h; unfold stepErrOk; simp [filterMap_none h]
+  unfold createSpec
+  by_cases hf : fillFails w st.fills = true
+  · have hfe := fillEvs_fail sh w st.fills st.next hf
+    by_cases hfa : sh.factory = true
+    · simp only [hfa, Bool.not_true, hf, if_true, hfe, Bool.false_eq_true, ↓reduceIte]
+      exact errOk_fail false _ _ _ (dfltEvs_nofail sh) (by simp [evFail])
+    · simp only [Bool.not_eq_true] at hfa
+      by_cases hc : sh.cfg = .none
+      · simp only [hfa, Bool.not_false, hc, hf, if_true, hfe, Bool.false_eq_true, ↓reduceIte]
+        exact errOk_fail false [] _ _ (by simp) (by simp [evFail])
+      · simp only [hfa, Bool.not_false, if_true, hc, if_false, Bool.false_eq_true, ↓reduceIte]
+        exact hmade [] (by simp)
+  · have hev : ∀ e ∈ dfltEvs sh ++ fillEvs sh w st.fills st.next, evFail e = none := by
+      intro e he
+      simp only [List.mem_append] at he
+      rcases he with he | he
+      · exact dfltEvs_nofail sh e he
+      · exact fillEvs_nofail sh w _ _ (by simpa using hf) e he
+    by_cases hfa : sh.factory = true
+    · simp only [hfa, Bool.not_true, hf, Bool.false_eq_true, ↓reduceIte]
+      by_cases hcf : ctorFails sh w st.ctors = true
+      · simp only [hcf, if_true, Bool.false_eq_true, ↓reduceIte]
+        exact errOk_fail false _ _ _ hev (by simp [evFail])
+      · simp only [hcf, Bool.false_eq_true, ↓reduceIte]
+        apply hmade
+        intro e he
+        simp only [List.mem_append, List.mem_singleton] at he
+        rcases he with he | rfl
+        · exact hev e (by simpa using he)
+        · simp [evFail]
+    · simp only [Bool.not_eq_true] at hfa
+      by_cases hc : sh.cfg = .none
+      · simp only [hfa, Bool.not_false, hc, hf, if_true, Bool.false_eq_true, ↓reduceIte]
+        exact hmade _ (fillEvs_nofail sh w _ _ (by simpa using hf))
+      · simp only [hfa, Bool.not_false, if_true, hc, if_false, Bool.false_eq_true, ↓reduceIte]
+        exact hmade [] (by simp)
